@@ -146,7 +146,9 @@ def short(fn):
 
 
 def in_slice(name, patterns):
-    return any(fnmatch.fnmatchcase(name, p) for p in patterns)
+    pos = [p for p in patterns if not p.startswith("!")]
+    neg = [p[1:] for p in patterns if p.startswith("!")]
+    return any(fnmatch.fnmatchcase(name, p) for p in pos) and not any(fnmatch.fnmatchcase(name, p) for p in neg)
 
 
 # ---------------------------------------------------------------------------------------------
